@@ -71,6 +71,16 @@ def half_scenarios(thorough, rng):
             recvs = [lim - 1, lim, lim + 1] if own < 24 else [lim - 1]
             ops = [["recv", n, "hdr"] for n in recvs] + [["recv", 40, "hdr"], ["send", 40]]
             out.append(dict(type="half", role=role, ser=rng.choice([1, 2, 3]), peer_exp=rng.randrange(16), own_exp=own, ops=ops, seed=rng.randrange(10 ** 6)))
+        # configured maxima that are not powers of two: the announcement is rounded up, and the announced number is the limit
+        for size in [513, 1000, 5000, 100000] + ([600, 3000, 70000, 2 ** 20 + 1, 2 ** 24 - 5] if thorough else [40000]):
+            up = 512
+            while up < size:
+                up *= 2
+            recvs = [size - 1, size, size + 1, up - 1, up] + ([up + 1] if up < 2 ** 24 else [])
+            recvs = [n for n in recvs if n < 2 ** 24]
+            ops = [["recv", n, "hdr"] for n in recvs] + [["recv", 40, "hdr"], ["send", 40]]
+            out.append(dict(type="half", role=role, ser=rng.choice([1, 2, 3]), peer_exp=rng.randrange(16), own_exp=None, own_size=size, ops=ops,
+                            seed=rng.randrange(10 ** 6)))
         for kind in KINDS + ["ping0"]:
             for rep in range(3 if thorough else 2):
                 pre = [rng.choice([["send", rng.randrange(30, 400)], ["recv", rng.randrange(30, 400), "hdr"]]) for _ in range(rng.randrange(0, 4))]
